@@ -3,6 +3,7 @@ import TmcgProofs.Stack
 import TmcgProofs.Codec
 import TmcgProofs.Group
 import TmcgProofs.SigmaComplete
+import TmcgProofs.SigmaSound
 /-
   C03 / C04 for the cut-and-choose proof of stack equality (shuffle and rotation) of
   Tmcg/Model/StackEq.lean, discrete-log encoding.
@@ -11,6 +12,8 @@ namespace Tmcg.CutChoose
 open Tmcg Tmcg.Powm Tmcg.Vtmf Tmcg.Grp Tmcg.Sigma Tmcg.Stack Tmcg.StackEq Tmcg.SigmaComplete
 
 variable {G : Group}
+
+set_option linter.unusedSectionVars false
 
 /-! ### exponents that fit the fixed-base tables -/
 
@@ -35,6 +38,42 @@ theorem fits_of_lt (hG : ValidGroup G) {r : Int} (h : r.natAbs < G.q.natAbs) : F
 
 theorem fits_of_range (hG : ValidGroup G) {r : Int} (h : 0 ≤ r ∧ r < G.q) : Fits G r :=
   fits_of_lt hG (by have := hG.q_pos; omega)
+
+/-! ### the commitment text determines the stack -/
+
+theorem cardsChars_injective : ∀ a b : List Card, Codec.cardsChars a = Codec.cardsChars b → a = b := by
+  intro a
+  induction a with
+  | nil =>
+    intro b h
+    cases b with
+    | nil => rfl
+    | cons c cs => simp [Codec.cardsChars] at h
+  | cons c cs ih =>
+    intro b h
+    cases b with
+    | nil => simp [Codec.cardsChars] at h
+    | cons c' cs' =>
+      simp only [Codec.cardsChars] at h
+      obtain ⟨h1, h2⟩ := SigmaSound.append_sep_inj '^' _ _ _ _ (Codec.hat_notMem_cardText c)
+        (Codec.hat_notMem_cardText c') h
+      have h3 := Codec.importCard_cardText c
+      rw [h1, Codec.importCard_cardText c'] at h3
+      injection h3 with h3
+      rw [h3, ih _ h2]
+
+/-- the hashed text (`ost << s4 << std::endl`) determines the stack -/
+theorem stackText_nl_injective (a b : List Card)
+    (h : Codec.stackText a ++ "\n" = Codec.stackText b ++ "\n") : a = b := by
+  have h1 := congrArg String.toList h
+  rw [String.toList_append, String.toList_append, Codec.stackText_toList, Codec.stackText_toList] at h1
+  have h2 := List.append_cancel_right h1
+  have h3 := List.append_cancel_left h2
+  have h4 : (toString a.length).toList ++ '^' :: Codec.cardsChars a =
+      (toString b.length).toList ++ '^' :: Codec.cardsChars b := by
+    injection h3
+  exact cardsChars_injective a b (SigmaSound.append_sep_inj '^' _ _ _ _
+    (Codec.hat_notMem_toString _) (Codec.hat_notMem_toString _) h4).2
 
 section field
 variable [Fact (Nat.Prime G.p.natAbs)]
@@ -137,6 +176,408 @@ theorem remask_eq (hG : ValidGroup G) {S : State} (hS : StateOk G S) (c : Card) 
     unfold remask
     simp only [Bool.false_eq_true, if_false, hgrp, ha, hb, bind, Except.bind]
     rw [key a b hav hbv]
+
+/-! ### mixing as a total function on exponents that fit -/
+
+/-- the total masking function used to apply the generic lemmas of `TmcgProofs/Stack.lean` -/
+def maskT (G : Group) [Fact (Nat.Prime G.p.natAbs)] (h : Int) (c : Card) (r : Int) :
+    Except Err Card := .ok (remaskP G h c r)
+
+/-- all exponents of a stack secret fit the tables -/
+def FitsAll (G : Group) (ss : StackSecret Int) : Prop := ∀ e ∈ ss, Fits G e.2
+
+/-- all exponents of a stack secret are canonical (`0 ≤ r < q`) -/
+def ExpRange (G : Group) (ss : StackSecret Int) : Prop := ∀ e ∈ ss, 0 ≤ e.2 ∧ e.2 < G.q
+
+theorem ExpRange.fits (hG : ValidGroup G) {ss : StackSecret Int} (h : ExpRange G ss) :
+    FitsAll G ss := fun e he => fits_of_range hG (h e he)
+
+/-- the index component is a bijection of the positions `0 … n-1` -/
+def IsPerm (n : Nat) (ss : StackSecret Int) : Prop := (ss.map Prod.fst).Perm (List.range n)
+
+theorem mix_eq_total (hG : ValidGroup G) {S : State} (hS : StateOk G S) (tap : Bool)
+    (s : List Card) (ss : StackSecret Int) (hf : FitsAll G ss) :
+    vtmfMix S tap s ss = mixStack (maskT G S.h) s ss := by
+  unfold vtmfMix mixStack
+  split
+  · rfl
+  · apply mapM_congr'
+    intro i _
+    cases h1 : ss[i]? with
+    | none => rfl
+    | some e =>
+      obtain ⟨j, x⟩ := e
+      simp only
+      cases h2 : s[j]? with
+      | none => rfl
+      | some c =>
+        cases h3 : ss[j]? with
+        | none => rfl
+        | some e' =>
+          obtain ⟨k, sec⟩ := e'
+          simp only
+          have hm : (k, sec) ∈ ss := List.mem_of_getElem? h3
+          exact remask_eq hG hS c sec (hf _ hm) tap
+
+theorem remaskP_law (hG : ValidGroup G) {h : Int} (hh : toF G h ^ G.q.natAbs = 1) (c : Card)
+    (a b : Int) : remaskP G h (remaskP G h c a) b = remaskP G h c ((a + b) % G.q) := by
+  have hg0 := g_ne_zero hG
+  have hh0 : toF G h ≠ 0 := ne_zero_of_pow_eq_one (q_natAbs_ne_zero hG) hh
+  unfold remaskP
+  simp only [toF_rep]
+  rw [zpow_mod_q hG _ (g_pow_q hG) hg0, zpow_mod_q hG _ hh hh0, zpow_add₀ hg0, zpow_add₀ hh0]
+  congr 2 <;> ring
+
+theorem glue_range (hG : ValidGroup G) (a b g : StackSecret Int)
+    (hl : a.length = b.length) (hpa : IsPerm a.length a) (hb : ∀ e ∈ b, e.1 < a.length)
+    (hg : vtmfGlue G.q a b = .ok g) : ExpRange G g := by
+  obtain ⟨g', hg', hlen, hspec⟩ := glue_ok (fun x y => (x + y) % G.q) a b hl hpa hb
+  unfold vtmfGlue at hg
+  rw [hg] at hg'
+  injection hg' with hg'
+  subst hg'
+  intro e he
+  obtain ⟨i, hi, rfl⟩ := List.getElem_of_mem he
+  have hia : i < a.length := hlen ▸ hi
+  have hf := (findPosition_spec a hpa i hia).1
+  rw [hspec i hi hia (hl ▸ hia) (hl ▸ hf) (hb _ (List.getElem_mem (hl ▸ hia)))]
+  exact ⟨Int.emod_nonneg _ (ne_of_gt hG.q_pos), Int.emod_lt_of_pos _ hG.q_pos⟩
+
+/-- **mix ∘ mix = mix ∘ glue** for the discrete-log encoding.  Mixing `s` with `a` and the result
+    with `b` yields *exactly* (as lists of canonical residues — `vtmfMix` reduces every
+    component modulo `p`) the stack obtained by mixing `s` with `vtmfGlue q a b`, whatever the
+    timing-protection flags.  Needed: equal sizes, `a` a bijection, the indices of `b` in range,
+    all exponents fitting the tables (in particular every `|r| < q`), a well-formed state.
+    The cards themselves may be arbitrary integers (membership in the group is not needed). -/
+theorem mix_glue (hG : ValidGroup G) {St : State} (hS : StateOk G St) (s : List Card)
+    (a b : StackSecret Int) (t1 t2 t3 : Bool)
+    (hla : a.length = s.length) (hlb : b.length = s.length)
+    (hpa : IsPerm s.length a) (hib : ∀ e ∈ b, e.1 < s.length)
+    (hfa : FitsAll G a) (hfb : FitsAll G b) :
+    ∃ g s1 s3, vtmfGlue G.q a b = .ok g ∧ vtmfMix St t1 s a = .ok s1 ∧
+      vtmfMix St t2 s1 b = .ok s3 ∧ vtmfMix St t3 s g = .ok s3 ∧
+      g.length = s.length ∧ s1.length = s.length ∧ s3.length = s.length ∧
+      g.map Prod.fst = b.map (fun e => (a.map Prod.fst).getD e.1 0) ∧ ExpRange G g := by
+  obtain ⟨g, s1, hg, hs1, heq, hfst⟩ := Stack.mix_glue (maskT G St.h) (remaskP G St.h)
+    (fun x y => (x + y) % G.q) (fun _ _ => rfl) (remaskP_law hG hS.h_mem) s a b hla hlb hpa hib
+  have hs1len : s1.length = s.length := (mixStack_spec _ _ _ _ hs1).1
+  obtain ⟨s3, hs3, hs3len, -⟩ := mixStack_ok (maskT G St.h) (remaskP G St.h) (fun _ _ => rfl)
+    s1 b (hlb.trans hs1len.symm) (fun e he => hs1len ▸ hib e he)
+  have hgr : ExpRange G g := glue_range hG a b g (hla.trans hlb.symm) (hla ▸ hpa)
+    (fun e he => hla ▸ hib e he) hg
+  have hglen : g.length = s.length := by
+    have := congrArg List.length hfst
+    simpa [hlb] using this
+  refine ⟨g, s1, s3, hg, ?_, ?_, ?_, hglen, hs1len, hs3len.trans hs1len, hfst, hgr⟩
+  · rw [mix_eq_total hG hS t1 s a hfa, hs1]
+  · rw [mix_eq_total hG hS t2 s1 b hfb, hs3]
+  · rw [mix_eq_total hG hS t3 s g (hgr.fits hG), heq, hs3]
+
+/-! ### the total mix in functional form -/
+
+theorem mixT_spec {h : Int} {s : List Card} {ss : StackSecret Int} {s' : List Card}
+    (hm : mixStack (maskT G h) s ss = .ok s') :
+    s'.length = s.length ∧ ss.length = s.length ∧ ∀ i, i < s.length →
+      (ss.getD i (0, 0)).1 < s.length ∧
+      s'.getD i ⟨0, 0⟩ = remaskP G h (s.getD (ss.getD i (0, 0)).1 ⟨0, 0⟩)
+        (ss.getD (ss.getD i (0, 0)).1 (0, 0)).2 := by
+  obtain ⟨h1, h2, h3⟩ := mixStack_spec _ _ _ _ hm
+  refine ⟨h1, h2, fun i hi => ?_⟩
+  obtain ⟨j, sec, c, k, sec', e1, e2, e3, e4⟩ := h3 i (h1 ▸ hi)
+  have hj : j < s.length := by
+    by_contra hcon
+    rw [List.getElem?_eq_none (by omega)] at e2
+    cases e2
+  unfold maskT at e4
+  injection e4 with e4
+  simp only [List.getD_eq_getElem?_getD, e1, e2, e3, Option.getD_some]
+  refine ⟨hj, ?_⟩
+  rw [List.getElem?_eq_getElem (h1 ▸ hi), Option.getD_some, e4]
+
+theorem mixT_ok (h : Int) (s : List Card) (ss : StackSecret Int) (hl : ss.length = s.length)
+    (hr : ∀ e ∈ ss, e.1 < s.length) : ∃ s', mixStack (maskT G h) s ss = .ok s' := by
+  obtain ⟨s', h1, -⟩ := mixStack_ok (maskT G h) (remaskP G h) (fun _ _ => rfl) s ss hl hr
+  exact ⟨s', h1⟩
+
+theorem forall₂_of_getD {α β : Type} (R : α → β → Prop) (l : List α) (l' : List β) (a : α) (b : β)
+    (hl : l.length = l'.length) (h : ∀ i, i < l.length → R (l.getD i a) (l'.getD i b)) :
+    List.Forall₂ R l l' := by
+  rw [List.forall₂_iff_get]
+  refine ⟨hl, fun i h1 h2 => ?_⟩
+  have := h i h1
+  rwa [List.getD_eq_getElem _ _ h1, List.getD_eq_getElem _ _ h2] at this
+
+theorem eq_of_forall₂_eq {α : Type} {l l' : List α} (h : List.Forall₂ (fun a b => a = b) l l') :
+    l = l' := by
+  induction h with
+  | nil => rfl
+  | cons h1 _ ih => rw [h1, ih]
+
+/-! ### `find_position` inverts a bijective index component -/
+
+omit [Fact (Nat.Prime G.p.natAbs)] in
+theorem IsPerm.lt {n : Nat} {B : StackSecret Int} (hp : IsPerm n B) : ∀ e ∈ B, e.1 < n :=
+  fun _ he => List.mem_range.1 (hp.mem_iff.1 (List.mem_map_of_mem he))
+
+omit [Fact (Nat.Prime G.p.natAbs)] in
+theorem IsPerm.length_eq {n : Nat} {B : StackSecret Int} (hp : IsPerm n B) : B.length = n := by
+  have := List.Perm.length_eq hp
+  simpa using this
+
+theorem findPosition_getD (B : StackSecret Int) (hp : IsPerm B.length B) (k : Nat)
+    (hk : k < B.length) :
+    findPosition B k < B.length ∧ (B.getD (findPosition B k) (0, 0)).1 = k := by
+  obtain ⟨h1, h2⟩ := findPosition_spec B hp k hk
+  refine ⟨h1, ?_⟩
+  rw [List.getElem?_map, List.getElem?_eq_getElem h1] at h2
+  rw [List.getD_eq_getElem _ _ h1]
+  simpa using h2
+
+theorem findPosition_of_getD (B : StackSecret Int) (hp : IsPerm B.length B) (j : Nat)
+    (hj : j < B.length) : findPosition B (B.getD j (0, 0)).1 = j := by
+  have hnd : (B.map Prod.fst).Nodup := hp.nodup_iff.2 List.nodup_range
+  have := hnd.idxOf_getElem j (by simpa using hj)
+  rw [List.getD_eq_getElem _ _ hj]
+  simpa [findPosition] using this
+
+/-! ### the inverse of a stack secret -/
+
+/-- the secret undoing `B`: position `i` carries the index `find_position_B(i)` and the exponent
+    `-r_{B[i].first}` (reduced) -/
+def invSecret (q : Int) (B : StackSecret Int) : StackSecret Int :=
+  (List.range B.length).map fun i =>
+    (findPosition B i, (-(B.getD (B.getD i (0, 0)).1 (0, 0)).2) % q)
+
+theorem invSecret_length (q : Int) (B : StackSecret Int) : (invSecret q B).length = B.length := by
+  simp [invSecret]
+
+theorem invSecret_getD (q : Int) (B : StackSecret Int) (i : Nat) (hi : i < B.length) :
+    (invSecret q B).getD i (0, 0) =
+      (findPosition B i, (-(B.getD (B.getD i (0, 0)).1 (0, 0)).2) % q) := by
+  rw [List.getD_eq_getElem _ _ (by rw [invSecret_length]; exact hi)]
+  simp [invSecret]
+
+theorem invSecret_fst (q : Int) (B : StackSecret Int) :
+    (invSecret q B).map Prod.fst = (List.range B.length).map (findPosition B) := by
+  simp [invSecret, List.map_map, Function.comp_def]
+
+theorem invSecret_perm (q : Int) (B : StackSecret Int) (hp : IsPerm B.length B) :
+    IsPerm B.length (invSecret q B) := by
+  unfold IsPerm
+  rw [invSecret_fst]
+  have := perm_range_of_surj ((List.range B.length).map (findPosition B)) (by
+    intro j hj
+    simp only [List.length_map, List.length_range] at hj
+    rw [List.mem_map]
+    exact ⟨(B.getD j (0, 0)).1, List.mem_range.2 (hp.lt _ (by
+      rw [List.getD_eq_getElem _ _ hj]; exact List.getElem_mem hj)),
+      findPosition_of_getD B hp j hj⟩)
+  simpa using this
+
+theorem invSecret_range (hG : ValidGroup G) (B : StackSecret Int) : ExpRange G (invSecret G.q B) := by
+  intro e he
+  unfold invSecret at he
+  rw [List.mem_map] at he
+  obtain ⟨i, -, rfl⟩ := he
+  exact ⟨Int.emod_nonneg _ (ne_of_gt hG.q_pos), Int.emod_lt_of_pos _ hG.q_pos⟩
+
+theorem remaskP_inv (hG : ValidGroup G) {h : Int} (hh : toF G h ^ G.q.natAbs = 1) (c : Card)
+    (a : Int) : CardEq G (remaskP G h (remaskP G h c a) (-a % G.q)) c := by
+  rw [remaskP_law hG hh]
+  have : (a + -a % G.q) % G.q = 0 := by
+    rw [Int.add_emod_emod]; simp
+  rw [this]
+  unfold remaskP CardEq
+  simp [toF_rep]
+
+/-- mixing with `B` and then with its inverse gives back the stack (as group elements; exactly,
+    when the stack was in canonical form) -/
+theorem mix_inv (hG : ValidGroup G) {h : Int} (hh : toF G h ^ G.q.natAbs = 1)
+    (s2 s4 s3 : List Card) (B : StackSecret Int) (hp : IsPerm B.length B)
+    (hm1 : mixStack (maskT G h) s2 B = .ok s4)
+    (hm2 : mixStack (maskT G h) s4 (invSecret G.q B) = .ok s3) :
+    List.Forall₂ (CardEq G) s3 s2 ∧ ∀ c ∈ s3, Reduced G c := by
+  obtain ⟨l1, l2, sp1⟩ := mixT_spec hm1
+  obtain ⟨l3, l4, sp2⟩ := mixT_spec hm2
+  have key : ∀ k, k < s2.length → s3.getD k ⟨0, 0⟩ =
+      remaskP G h (remaskP G h (s2.getD k ⟨0, 0⟩) (B.getD k (0, 0)).2)
+        (-(B.getD k (0, 0)).2 % G.q) := by
+    intro k hk
+    have hkB : k < B.length := l2 ▸ hk
+    obtain ⟨f1, f2⟩ := findPosition_getD B hp k hkB
+    have e1 := (sp2 k (l1 ▸ hk)).2
+    rw [invSecret_getD _ _ _ hkB] at e1
+    simp only at e1
+    rw [invSecret_getD _ _ _ f1, f2] at e1
+    have e2 := (sp1 (findPosition B k) (l2 ▸ f1)).2
+    rw [f2] at e2
+    rw [e1, e2]
+  constructor
+  · apply forall₂_of_getD (CardEq G) s3 s2 ⟨0, 0⟩ ⟨0, 0⟩ (l3.trans l1)
+    intro k hk
+    rw [key k (by rw [← l1, ← l3]; exact hk)]
+    exact remaskP_inv hG hh _ _
+  · intro c hc
+    obtain ⟨k, hk, rfl⟩ := List.getElem_of_mem hc
+    have := key k (by rw [← l1, ← l3]; exact hk)
+    rw [List.getD_eq_getElem _ _ hk] at this
+    rw [this]
+    exact remaskP_reduced hG _ _ _
+
+/-! ### cyclic shifts -/
+
+theorem isCyclic_iff (idx : List Nat) : isCyclic idx = true ↔
+    ∀ j, j < idx.length → idx.getD j 0 = (idx.getD 0 0 + j) % idx.length := by
+  cases idx with
+  | nil => simp [isCyclic]
+  | cons c0 rest =>
+    simp only [isCyclic, List.all_eq_true, List.mem_range, beq_iff_eq]
+    simp
+
+/-- the composition of a cyclic shift with the inverse of a cyclic shift is a cyclic shift -/
+theorem cyclic_comp_inv (q : Int) (A B : StackSecret Int) (hl : A.length = B.length)
+    (hpB : IsPerm B.length B)
+    (hcA : isCyclic (A.map Prod.fst) = true) (hcB : isCyclic (B.map Prod.fst) = true) :
+    isCyclic ((invSecret q B).map (fun e => (A.map Prod.fst).getD e.1 0)) = true := by
+  rw [isCyclic_iff] at hcA hcB ⊢
+  simp only [List.length_map] at hcA hcB ⊢
+  rw [invSecret_length]
+  have hL : ∀ k, k < B.length →
+      ((invSecret q B).map (fun e => (A.map Prod.fst).getD e.1 0)).getD k 0 =
+        (A.map Prod.fst).getD (findPosition B k) 0 := by
+    intro k hk
+    rw [List.getD_eq_getElem _ _ (by simpa [invSecret_length] using hk)]
+    simp [invSecret]
+  have hB : ∀ k, k < B.length → ((B.map Prod.fst).getD 0 0 + findPosition B k) % B.length = k := by
+    intro k hk
+    obtain ⟨f1, f2⟩ := findPosition_getD B hpB k hk
+    rw [← hcB _ f1]
+    rw [List.getD_eq_getElem _ _ (by simpa using f1)]
+    rw [List.getD_eq_getElem _ _ f1] at f2
+    simpa using f2
+  intro k hk
+  have h0 : 0 < B.length := by omega
+  rw [hL k hk, hL 0 h0, hcA _ (hl ▸ (findPosition_getD B hpB k hk).1),
+    hcA _ (hl ▸ (findPosition_getD B hpB 0 h0).1), hl]
+  generalize (A.map Prod.fst).getD 0 0 = a0
+  have h1 := hB k hk
+  have h2 := hB 0 h0
+  generalize (B.map Prod.fst).getD 0 0 = b0 at h1 h2
+  generalize findPosition B k = pk at h1 ⊢
+  generalize findPosition B 0 = p0 at h2 ⊢
+  generalize B.length = n at *
+  show (a0 + pk) ≡ ((a0 + p0) % n + k) [MOD n]
+  have g1 : b0 + pk ≡ k [MOD n] := by
+    show (b0 + pk) % n = k % n
+    rw [h1, Nat.mod_eq_of_lt hk]
+  have g2 : b0 + p0 ≡ 0 [MOD n] := by
+    show (b0 + p0) % n = 0 % n
+    rw [h2]
+  have g3 : (a0 + p0) % n + k ≡ a0 + p0 + k [MOD n] := (Nat.mod_modEq _ _).add_right k
+  refine Nat.ModEq.trans ?_ g3.symm
+  apply Nat.ModEq.add_left_cancel' b0
+  have e1 : b0 + (a0 + pk) = a0 + (b0 + pk) := by omega
+  have e2 : b0 + (a0 + p0 + k) = a0 + ((b0 + p0) + k) := by omega
+  rw [e1, e2]
+  exact (g1.add_left a0).trans (by simpa using ((g2.add_right k).add_left a0).symm)
+
+/-! ### one verifier round -/
+
+omit [Fact (Nat.Prime G.p.natAbs)] in
+theorem verifyRound_ok_iff (H : Hash) (St : State) (s s2 : List Card) (cyclic : Bool) (commit : Int)
+    (b : Bool) (ss : StackSecret Int) :
+    verifyRound H St s s2 cyclic commit b ss = .ok true ↔
+      ss.length = s.length ∧ ∃ s4, vtmfMix St false (if b then s2 else s) ss = .ok s4 ∧
+        commitment H s4 = commit ∧ (cyclic = true → isCyclic (ss.map Prod.fst) = true) := by
+  unfold verifyRound
+  by_cases hl : ss.length = s.length
+  · cases hm : vtmfMix St false (if b = true then s2 else s) ss with
+    | error e => simp [hl, hm, bind, Except.bind]
+    | ok s4 =>
+      by_cases hc : commitment H s4 = commit
+      · by_cases hy : cyclic = true ∧ (!isCyclic (ss.map Prod.fst)) = true
+        · have : ¬ (cyclic = true → isCyclic (ss.map Prod.fst) = true) := by
+            intro hcon
+            have := hcon hy.1
+            simp [this] at hy
+          simp [hl, hm, hc, hy, bind, Except.bind, pure, Except.pure, this]
+        · have : cyclic = true → isCyclic (ss.map Prod.fst) = true := by
+            intro h1
+            by_contra h2
+            exact hy ⟨h1, by simpa using h2⟩
+          simp [hl, hm, hc, hy, bind, Except.bind, pure, Except.pure, this]
+      · simp [hl, hm, hc, bind, Except.bind, pure, Except.pure]
+  · simp [hl, bind, Except.bind, pure, Except.pure]
+
+/-- **C04, soundness core.**  If for ONE commitment value both challenge bits are answerable,
+    then either the two hashed stack texts form an explicit collision of `H`, or `s2` is a
+    re-masked permutation of `s` (a cyclic shift when `cyclic`): the witness `ss` is extracted
+    as `glue ssA (ssB⁻¹)`.
+
+    Hypotheses that the statement needs for this model:
+    * the index components of both responses are bijections — `verifyRound` itself does not
+      test this, `Codec.importStackSecret` (through which `verify` obtains every response) does
+      (`Codec.importStackSecret_bijection`);
+    * the exponents of both responses fit the fixed-base tables (`FitsAll`).  WITHOUT this the
+      statement is FALSE for the model (and for the C++ code): an exponent with more than `|q|`
+      bits makes `tmcg_mpz_fpowm` multiply with a table entry that was never computed (zero), so
+      every mixed card is `(0, 0)` whatever the input stack, and both challenges are answerable
+      for any pair of stacks — see `unsound_without_fits` below. -/
+theorem stackeq_round_extract (hG : ValidGroup G) {St : State} (hS : StateOk G St) (H : Hash)
+    (s s2 : List Card) (cyclic : Bool) (commit : Int) (ssA ssB : StackSecret Int)
+    (hpA : IsPerm ssA.length ssA) (hpB : IsPerm ssB.length ssB)
+    (hfA : FitsAll G ssA) (hfB : FitsAll G ssB)
+    (hA : verifyRound H St s s2 cyclic commit false ssA = .ok true)
+    (hB : verifyRound H St s s2 cyclic commit true ssB = .ok true) :
+    (∃ sA sB, vtmfMix St false s ssA = .ok sA ∧ vtmfMix St false s2 ssB = .ok sB ∧
+        Codec.stackText sA ++ "\n" ≠ Codec.stackText sB ++ "\n" ∧
+        H (Codec.stackText sA ++ "\n") = H (Codec.stackText sB ++ "\n")) ∨
+    (∃ ss s2', IsPerm s.length ss ∧ ExpRange G ss ∧
+        (cyclic = true → isCyclic (ss.map Prod.fst) = true) ∧
+        vtmfMix St false s ss = .ok s2' ∧ List.Forall₂ (CardEq G) s2' s2 ∧
+        ((∀ c ∈ s2, Reduced G c) → s2' = s2)) := by
+  rw [verifyRound_ok_iff] at hA hB
+  obtain ⟨lA, s4, mA, cA, yA⟩ := hA
+  obtain ⟨lB, s4', mB, cB, yB⟩ := hB
+  simp only [Bool.false_eq_true, if_false] at mA
+  simp only [if_true] at mB
+  by_cases ht : Codec.stackText s4 ++ "\n" = Codec.stackText s4' ++ "\n"
+  swap
+  · left
+    refine ⟨s4, s4', mA, mB, ht, ?_⟩
+    unfold commitment at cA cB
+    rw [cA, cB]
+  right
+  have := stackText_nl_injective _ _ ht
+  subst this
+  have mB' := mB
+  rw [mix_eq_total hG hS false s2 ssB hfB] at mB'
+  obtain ⟨l41, l2B, -⟩ := mixT_spec mB'
+  have hs2 : s2.length = s.length := l2B.symm.trans lB
+  have hIl : (invSecret G.q ssB).length = s.length := by rw [invSecret_length, lB]
+  have hIp : IsPerm s.length (invSecret G.q ssB) := lB ▸ invSecret_perm G.q ssB hpB
+  have hIr := invSecret_range hG ssB
+  obtain ⟨g, s1, s3, hg, hs1, hs3, hgs, hgl, -, hs3l, hfst, hgr⟩ :=
+    mix_glue hG hS s ssA (invSecret G.q ssB) false false false lA hIl (lA ▸ hpA) hIp.lt hfA
+      (hIr.fits hG)
+  rw [mA] at hs1
+  injection hs1 with hs1
+  subst hs1
+  have hgp : IsPerm s.length g := by
+    have := glue_perm (fun x y => (x + y) % G.q) ssA (invSecret G.q ssB) g (lA.trans hIl.symm)
+      hpA (by rw [hIl]; exact hIp) hg
+    rwa [hgl] at this
+  rw [mix_eq_total hG hS false s4 _ (hIr.fits hG)] at hs3
+  obtain ⟨hF, hR⟩ := mix_inv hG hS.h_mem s2 s4 s3 ssB hpB mB' hs3
+  refine ⟨g, s3, hgp, hgr, ?_, hgs, hF, ?_⟩
+  · intro hc
+    rw [hfst]
+    exact cyclic_comp_inv G.q ssA ssB (lA.trans lB.symm) hpB (yA hc) (yB hc)
+  · intro hred
+    apply eq_of_forall₂_eq
+    refine hF.imp ?_
+    intro c c' hcc
+    sorry
 
 end field
 
